@@ -262,7 +262,7 @@ func TestC12_AccessPaths(t *testing.T) {
 	c := harness.New(t, "C12", "access-paths",
 		"data values generated by type-directed recursion to depth 4 (all integer widths, float32/64 incl. NaN/Inf/-0/extremes, bool, strings with arbitrary bytes, nil, pointers incl. nil and pointer-to-pointer, []T and []any, map[string]T, structs built at run time with reflect.StructOf, hand-written structs with unexported fields, embedded structs and pointer fields) and a random access path into them (.Field, .field, [\"key\"], .key, [i], mixed; pointers transparent): the leaf must render as its value (strings byte for byte, numbers/booleans/nil exactly as the equal literal renders, floats also by value), slices report their length, nil pointers render as nil; the caller's map must stay deep-equal to a copy. Non-trivial: path of >= 2 steps or a pointer/struct inside a slice/map or a nil pointer. Distinct by hash of data + path.")
 	defer c.Finish()
-	runRapid(t, c, 20000, 60000, func(rt *rapid.T) {
+	runRapid(t, c, 20000, 180000, func(rt *rapid.T) {
 		root := genSpecValue(4, false).Draw(rt, "value")
 		data := (&spec.Data{}).Add("d", root)
 		if rapid.Bool().Draw(rt, "sibling") {
@@ -347,7 +347,7 @@ func TestC12_Unsupported(t *testing.T) {
 	c := harness.New(t, "C12", "unsupported",
 		"data maps in which a value of an unsupported kind (chan, func, complex128, fixed-size array) occurs at top level or nested at any depth (inside pointers, []any, typed slices, maps, struct fields), next to healthy entries, with templates that do and do not touch it: the call must return an error, no output, no panic. Non-trivial: the unsupported value is nested. Distinct by hash.")
 	defer c.Finish()
-	runRapid(t, c, 6000, 20000, func(rt *rapid.T) {
+	runRapid(t, c, 6000, 60000, func(rt *rapid.T) {
 		bad := spec.Unsupported(rapid.SampledFrom([]string{spec.TChan, spec.TFunc, spec.TComplex, spec.TArray}).Draw(rt, "kind"))
 		depth := rapid.IntRange(0, 3).Draw(rt, "depth")
 		v := bad
@@ -392,7 +392,7 @@ func TestC12_NotModified(t *testing.T) {
 		"{{ d.shuffle() }}", "{{ d++ }}{{ d-- }}", "{{ d = d + d }}", "{{ d.upper() }}{{ d.reverse() }}", "@each(other in d){{ other }}@end", "@for(i = 0; i < 2; i++){{ d }}@end",
 		"{{ d.list = 1 }}", "{{ d[0] }}{{ d.a }}", "@dump(d)", "{{ d ? d : other }}", "{{ [d, d].reverse()[0] }}", "{{ {k: d}.k }}", "{{ d.slice(0, 1).append(9).reverse() }}{{ d }}",
 	}
-	runRapid(t, c, 8000, 30000, func(rt *rapid.T) {
+	runRapid(t, c, 8000, 90000, func(rt *rapid.T) {
 		root := genSpecValue(3, false).Draw(rt, "value")
 		data := (&spec.Data{}).Add("d", root).Add("other", genSpecValue(2, false).Draw(rt, "other"))
 		src := rapid.SampledFrom(tmpls).Draw(rt, "tmpl")
